@@ -206,6 +206,50 @@ def run(ctx):
     ctx.check(rec is not None and rec["size"] == 16, "R1.2", "payload-union:16-bytes", "include/ovni.h.in",
               "union ovni_ev_payload is %s bytes" % (rec and rec["size"]))
 
+    # ---- R1.7 the payload-size encoding, exhaustively over the 4-bit field ---------------------------
+    ctx.rule("R1.7", "the size nibble of the event flags round-trips: for every payload size p in {0, 2..16} reached by "
+             "ovni_payload_add and every further chunk of s >= 2 bytes that fits, ovni_payload_add copies the chunk "
+             "at offset p and leaves flags such that ovni_payload_size gives p + s and ovni_ev_size 12 + p + s "
+             "(exhaustive over the 16 values of the field; the event is stored with exactly that many bytes)")
+    ps_fn = prog.fn("ovni_payload_size", OV)
+    es_fn = prog.fn("ovni_ev_size", OV)
+    exn = absint.Explorer(prog, effects=eff, inline=lambda n, d: d.file == OV, max_depth=4)
+    FL = ("EV", hdr + F("ovni_ev_header", "flags"))
+    for hi in (0x00, 0x20):           # upper flag bits other than the jumbo bit are preserved and ignored
+        for p_ in [0] + list(range(2, 17)):
+            nib = 0 if p_ == 0 else p_ - 1
+            outs = [o for o in exn.run(ps_fn, [PTR("EV")], {FL: INT(hi | nib)}) if o.kind == "ret"]
+            ctx.check(len(outs) == 1 and outs[0].ret == INT(p_), "R1.7", "ovni_payload_size:flags=0x%02x" % (hi | nib), ps_fn.loc(),
+                      "flags 0x%02x encode a payload of %d bytes; ovni_payload_size returns %s" %
+                      (hi | nib, p_, [str(o.ret) for o in outs]))
+            outs = [o for o in exn.run(es_fn, [PTR("EV")], {FL: INT(hi | nib)}) if o.kind == "ret"]
+            ctx.check(len(outs) == 1 and outs[0].ret == INT(12 + p_), "R1.7", "ovni_ev_size:flags=0x%02x" % (hi | nib), es_fn.loc(),
+                      "an event with a %d-byte payload must occupy %d bytes; ovni_ev_size returns %s" %
+                      (p_, 12 + p_, [str(o.ret) for o in outs]))
+            if hi:
+                continue
+            for s_ in range(2, 17 - p_):
+                copies = []
+
+                def oc7(ex_, st, f_, e, cal, args, copies=copies):
+                    if cal in MEMCPY and len(args) >= 3:
+                        copies.append((args[0], args[2]))
+                ex7 = absint.Explorer(prog, effects=eff, inline=lambda n, d: d.file == OV, max_depth=4, on_call=oc7)
+                outs = [o for o in ex7.run(pa, [PTR("EV"), PTR("SRC"), INT(s_)], {FL: INT(nib)}) if o.kind in ("ret", "exit")]
+                want_dest = PTR("EV", F("ovni_ev", "payload") + F("ovni_ev_payload", "u8") + (p_,))
+                good = len(outs) == 1 and outs[0].store.get(FL) == INT(p_ + s_ - 1) and \
+                    len(copies) == 1 and copies[0][1] == INT(s_) and copies[0][0] == want_dest
+                ctx.check(good, "R1.7", "ovni_payload_add:%d+%d" % (p_, s_), pa.loc(),
+                          "adding %d bytes to a %d-byte payload: flags become %s (expected 0x%02x), copy %s (expected %d "
+                          "bytes at payload offset %d)" % (s_, p_, [str(o.store.get(FL)) for o in outs], p_ + s_ - 1,
+                                                           [(str(c[0]), str(c[1])) for c in copies], s_, p_))
+
+    ctx.rule("R1.8", "every thread's stream bytes pass only through storage private to that thread (thread-local or "
+             "automatic): no function reachable from the tracing API writes a shared static object other than the "
+             "process state (same analysis as C11 R11.1)")
+    from rules.rtcommon import private_storage_rule
+    private_storage_rule(ctx, "R1.8", "stream bytes")
+
     # ---- R1.3 write_evbuf ----------------------------------------------------------------------
     wf = prog.fn("write_evbuf", OV)
     _check_write_loop(ctx, prog, eff, cap, wf)
